@@ -71,3 +71,64 @@ package bip39
 
 //@ func etMapWrite
 //@   ensures [E] ok_dummy: true
+
+//@ func etWipeLocal
+//@   requires 0 <= n && n < 1000000
+//@   ensures [E] ok_len: result == n
+//@   ensures [E] bad_len: result == n + 1
+
+//@ func etWipeArg
+//@   ensures [E] ok_len: result == len(b)
+
+//@ func etDeferResult
+//@   requires x < 1000
+//@   ensures [E] ok_plus1: result == x + 1
+//@   ensures [E] bad_same: result == x
+
+//@ func etCapture
+//@   requires x < 1000
+//@   ensures [E] ok_plus2: result == x + 2
+//@   ensures [E] bad_same: result == x
+
+//@ func etUseFill
+//@   requires 0 <= n && n < 1000000
+//@   ensures [E] ok_len: result == n
+
+//@ func etUseFillOff
+//@   requires 0 <= n && n < 1000000
+//@   ensures [E] ok_len: result == n
+
+//@ func etUseStuck
+//@   requires 0 <= n && n < 1000000
+//@   ensures [E] ok_len: result == n
+
+//@ func etUseFillDown
+//@   requires 0 <= n && n < 1000000
+//@   ensures [E] ok_len: result == n
+
+//@ func etArr
+//@   requires 0 <= i && i < 4
+//@   ensures [E] ok_written: implies(i == 1, result == 7)
+//@   ensures [E] ok_zero: implies(i == 2, result == 0)
+//@   ensures [E] bad_all: result == 7
+
+//@ func etArrOOB
+//@   ensures [E] ok_dummy: true
+
+//@ func etArrSlice
+//@   ensures [E] ok_alias: result == 9 + 3 + 6
+//@   ensures [E] bad_noalias: result == 0 + 3 + 6
+
+//@ func etArrCopy
+//@   ensures [E] ok_value_semantics: result == 0
+//@   ensures [E] bad_alias: result == 1
+
+//@ func etAnd3
+//@   ensures [E] ok_neg: implies(x == 0-1, result == 3)
+//@   ensures [E] ok_pos: implies(x == 6, result == 2)
+//@   ensures [E] ok_mult4: implies(x == 0-8, result == 0)
+//@   ensures [E] bad_identity: result == x
+
+//@ func etAndVar
+//@   ensures [E] ok_le: result <= x && result <= y
+//@   ensures [E] bad_eq: result == x
